@@ -89,6 +89,15 @@ Proof.
   rewrite rev_app_distr. cbn. constructor; [|exact N]. rewrite <- in_rev. exact H.
 Qed.
 
+Lemma NoDup_app_disjoint {A} (l l' : list A) :
+  NoDup l -> NoDup l' -> (forall x, In x l -> In x l' -> False) -> NoDup (l ++ l').
+Proof.
+  induction l as [|a l IH]; intros N N' D; [exact N'|]. cbn [app]. inversion N as [|? ? N1 N2]; subst.
+  constructor.
+  - intros H. apply in_app_or in H. destruct H as [H|H]; [exact (N1 H) | exact (D a (or_introl eq_refl) H)].
+  - apply IH; [exact N2 | exact N' | intros x H1 H2; exact (D x (or_intror H1) H2)].
+Qed.
+
 (* ---------- positional layout ---------- *)
 Lemma final_app c p q : final c (p ++ q) = final (final c p) q.
 Proof. unfold final. apply fold_left_app. Qed.
